@@ -157,6 +157,15 @@ func checkLinesSplit(c *core.Ctx) {
 					return absint.S("IDX"), true
 				}
 				return absint.Int(-1), true
+			case "bytes.Cut":
+				// before, after, found := bytes.Cut(data, sep): before is data[0:IDX]
+				if len(args) == 2 {
+					sepArg = args[1].Canon()
+					if sc.found {
+						return absint.Tuple{Elems: []absint.Val{absint.S(args[0].Canon() + "[0:IDX]"), absint.S(args[0].Canon() + "[IDX+len(sep):]"), absint.Bool(true)}}, true
+					}
+					return absint.Tuple{Elems: []absint.Val{args[0], absint.Nil{}, absint.Bool(false)}}, true
+				}
 			}
 			return nil, false
 		}
@@ -189,6 +198,7 @@ func checkLinesSplit(c *core.Ctx) {
 				continue
 			}
 			adv, tok, e := o.Values[0].Canon(), o.Values[1].Canon(), o.Values[2]
+			adv = strings.ReplaceAll(adv, "len("+dataName+"[0:IDX])", "IDX") // the length of the piece before the separator
 			if !absint.IsNilVal(e) {
 				bad = "the split function returns an error: " + o.Show(e)
 				continue
@@ -263,7 +273,7 @@ func checkLinesSplit(c *core.Ctx) {
 	}
 	sepOK := false
 	ast.Inspect(lit.Body, func(n ast.Node) bool {
-		if call, ok := n.(*ast.CallExpr); ok && p.CalleeName(info, call) == "bytes.Index" && len(call.Args) == 2 {
+		if call, ok := n.(*ast.CallExpr); ok && (p.CalleeName(info, call) == "bytes.Index" || p.CalleeName(info, call) == "bytes.Cut") && len(call.Args) == 2 {
 			if strings.Contains(resolveSep(call.Args[1], 0), ".separator") && core.ExprStr(call.Args[0]) == dataName {
 				sepOK = true
 			}
